@@ -104,6 +104,18 @@ def run(pid, tier, seed, replay=None):
             nlm = sum(1 for d in devs if d["kind"] == "ledger-mismatch")
             ck.drift("the bytes held by a freshly read table differ from Lifecycle!Bytes: the allocation scheme changed; %d ledger-mismatch observations are not judged" % nlm)
             devs = [d for d in devs if d["kind"] != "ledger-mismatch"]
+        # clauses of Lifecycle!Judge that belong to other properties (what an operation computes or which inputs it accepts:
+        # C06, C07, C13, C14, C15) are reported as drift here; C20 is about the object staying valid and the memory balance
+        other_property = {"empty-table-written", "bad-permutation-accepted", "permutation-refused", "bad-fit-accepted", "good-fit-failed",
+                          "invalid-input-accepted", "valid-read-failed", "write-failed", "read-wrong-table", "convolve-wrong-shape",
+                          "stack-wrong-shape", "bad-stack-accepted", "good-stack-failed"}
+        seen_other = {}
+        for d in devs:
+            if d["kind"] in other_property:
+                seen_other[d["kind"]] = seen_other.get(d["kind"], 0) + 1
+        for k, n in sorted(seen_other.items()):
+            ck.drift("%d calls with outcome '%s' (decided by the check of the property that owns that clause, not by C20)" % (n, k))
+        devs = [d for d in devs if d["kind"] not in other_property]
         for d in devs:
             ev = rows[d["line"] - 1]
             ck.violation({"class": d["kind"], "op": d["op"], "armed": d["armed"] >= 0, "pre_populated": ev["pre"]["ndim"] > 0, "kind": ev.get("kind"), "file": ev.get("file")} if d["op"] != "stack" else {"class": d["kind"], "op": "stack", "armed": d["armed"] >= 0, "kind": ev.get("kind")},
